@@ -23,6 +23,7 @@ func runC07(p *Prog, r *Report) {
 	c07R5(p, r)
 	c07R6(p, r)
 	c07R7(p, r)
+	c07R8(p, r)
 }
 
 func c07R1(p *Prog, r *Report) {
@@ -738,6 +739,8 @@ func c07R4(p *Prog, r *Report) {
 			}
 		})
 	}
+	nWrap := wrapperInnerReads(p, r, rule)
+	r.Count("wrapper_inner_reads", nWrap)
 	r.Count("hand_on_sites", n)
 	r.Floor(rule, 3)
 }
@@ -1096,4 +1099,155 @@ func isConversionExpr(info *types.Info, e ast.Expr) (ast.Expr, bool) {
 		return nil, false
 	}
 	return isConversion(info, c)
+}
+
+// wrapperInnerReads (shared by C07-R4 and C13-R6): see the comment in the body.
+func wrapperInnerReads(p *Prog, r *Report, rule string) int {
+	// wrapper types that pair a connection with the reader that read ahead of it: every read-side
+	// operation on the inner connection (Read, WriteTo — directly or through a type assertion of
+	// it) runs only when the reader has nothing buffered; otherwise the read goes through the
+	// reader
+	nWrap := 0
+	for _, rel := range []string{"httpproxy", "socks5"} {
+		pkg := p.Pkg(rel)
+		p.AllFuncs(pkg, func(fc *FuncCtx) {
+			recv := fc.RecvObj()
+			if recv == nil {
+				return
+			}
+			rt := recv.Type()
+			if pt, isP := rt.Underlying().(*types.Pointer); isP {
+				rt = pt.Elem()
+			}
+			st, ok := rt.Underlying().(*types.Struct)
+			if !ok {
+				return
+			}
+			var brField, connField string
+			for i := 0; i < st.NumFields(); i++ {
+				f := st.Field(i)
+				if strings.HasSuffix(f.Type().String(), "bufio.Reader") {
+					brField = f.Name()
+				}
+				if namedTypeName(f.Type()) == "Conn" && connField == "" {
+					connField = f.Name()
+				}
+			}
+			if brField == "" || connField == "" || fc.Obj.Name() == "Proceed" {
+				return
+			}
+			info := fc.Info()
+			isInner := func(e ast.Expr) bool {
+				e = ast.Unparen(e)
+				if id, isId := e.(*ast.Ident); isId {
+					if o := objOf(info, id); o != nil {
+						if rhs, _, _, okd := fc.SoleDefRHS(o); okd {
+							e = ast.Unparen(rhs)
+						}
+					}
+				}
+				if ta, isTA := e.(*ast.TypeAssertExpr); isTA {
+					e = ast.Unparen(ta.X)
+				}
+				root, path, okp := pathOf(info, e)
+				return okp && root == recv && path == "."+connField
+			}
+			var zero []Edge
+			for _, cv := range fc.G.V {
+				x, y, op, okc := condParts(cv)
+				if !okc || y == nil || !strings.HasSuffix(exprStr(x), "."+brField+".Buffered()") {
+					continue
+				}
+				if k, isC := constInt(info, y); !isC || k != 0 {
+					continue
+				}
+				zeroLabel := -1
+				switch op {
+				case token.GTR, token.NEQ:
+					zeroLabel = LFalse
+				case token.EQL, token.LEQ:
+					zeroLabel = LTrue
+				}
+				for _, e := range cv.Succs {
+					if e.Label == zeroLabel {
+						zero = append(zero, e)
+					}
+				}
+			}
+			for _, cs := range fc.AllCalls() {
+				sel, isSel := ast.Unparen(cs.Call.Fun).(*ast.SelectorExpr)
+				if !isSel || (sel.Sel.Name != "Read" && sel.Sel.Name != "WriteTo") || !isInner(sel.X) {
+					continue
+				}
+				nWrap++
+				r.Check(len(zero) > 0 && fc.G.EdgeDominates(zero, cs.V), rule, fmt.Sprintf("%s:inner-%s-only-if-nothing-buffered", fc.Name, sel.Sel.Name), cs.Pos(), "the inner connection is read directly only when the reader has nothing buffered",
+					"the wrapper reads from the inner connection ("+exprStr(cs.Call)+") although its bufio.Reader may still hold bytes read ahead during the handshake: those bytes are skipped and the stream that reaches the other side misses its beginning")
+			}
+		})
+	}
+	return nWrap
+}
+
+// c07R8: option plumbing. The servers and clients of these protocols are built by methods of
+// their configuration types; a field of the object being built whose name is the name of a
+// configuration option (enableUDP / EnableUDP) must be given that option, not a neighbouring one
+// of the same type — a copy-and-paste slip there silently swaps what the handshake permits.
+func c07R8(p *Prog, r *Report) {
+	const rule = "C07-R8"
+	r.Rule(rule, "options reach the field of their name: in the constructors on the configuration types of socks5, httpproxy and ssnone, a field initialised from an option of the configuration receiver takes the option of the same name (ignoring the case of the first letter) whenever the configuration has one")
+	n := 0
+	for _, rel := range []string{"socks5", "httpproxy", "ssnone"} {
+		pkg := p.Pkg(rel)
+		p.AllFuncs(pkg, func(top *FuncCtx) {
+			recv := top.RecvObj()
+			if recv == nil {
+				return
+			}
+			rt := recv.Type()
+			if pt, ok := rt.Underlying().(*types.Pointer); ok {
+				rt = pt.Elem()
+			}
+			st, ok := rt.Underlying().(*types.Struct)
+			if !ok || !strings.HasSuffix(namedTypeName(rt), "Config") {
+				return
+			}
+			options := map[string]string{} // lower-cased name -> field name
+			for i := 0; i < st.NumFields(); i++ {
+				options[strings.ToLower(st.Field(i).Name())] = st.Field(i).Name()
+			}
+			info := top.Info()
+			check := func(field string, val ast.Expr, pos token.Pos) {
+				sel, ok := ast.Unparen(val).(*ast.SelectorExpr)
+				if !ok || objOf(info, sel.X) != recv {
+					return
+				}
+				want, has := options[strings.ToLower(field)]
+				if !has {
+					return
+				}
+				n++
+				r.Check(sel.Sel.Name == want, rule, fmt.Sprintf("%s:%s-from-%s", top.Name, field, want), p.posStr(pos), field+" takes "+exprStr(val),
+					fmt.Sprintf("%s is initialised from %s although the configuration has an option %s: the handshake honours another option than the one the operator set", field, exprStr(val), want))
+			}
+			ast.Inspect(top.Body, func(x ast.Node) bool {
+				switch y := x.(type) {
+				case *ast.KeyValueExpr:
+					if id, ok := y.Key.(*ast.Ident); ok {
+						check(id.Name, y.Value, y.Pos())
+					}
+				case *ast.AssignStmt:
+					if len(y.Lhs) == len(y.Rhs) {
+						for i, l := range y.Lhs {
+							if sel, ok := ast.Unparen(l).(*ast.SelectorExpr); ok {
+								check(sel.Sel.Name, y.Rhs[i], y.Pos())
+							}
+						}
+					}
+				}
+				return true
+			})
+		})
+	}
+	r.Count("option_to_field_initialisations", n)
+	r.Floor(rule, 6)
 }
